@@ -34,11 +34,25 @@ func (d *driver) perRunWorker(a workerArgs, timeout time.Duration) ([]byte, erro
 		lastOut = out
 		rs, rerr := readResults(one.Out)
 		os.Remove(one.Out)
+		retried := false
+		if len(rs) != 1 {
+			// a lost run (watchdog) is harness trouble, not a verdict: one retry
+			retried = true
+			out, err = d.raceRun(one, 3*time.Minute)
+			rs, rerr = readResults(one.Out)
+			os.Remove(one.Out)
+		}
 		if len(rs) != 1 {
 			// one lost run (watchdog, crash) must not lose the rest of the shard
 			rs = []sim.RunResult{{Run: i, Trouble: fmt.Sprintf("run %d: no result (%v, %v): %s", i, err, rerr, tail(out, 1500))}}
 		}
 		d.attachRace(&rs[0], out)
+		if retried && rs[0].Trouble == "" {
+			if rs[0].Counters == nil {
+				rs[0].Counters = map[string]int64{}
+			}
+			rs[0].Counters["watchdog_retries"]++
+		}
 		b, _ := json.Marshal(&rs[0])
 		f.Write(b)
 		f.Write([]byte{'\n'})
